@@ -1068,6 +1068,15 @@ class PyExec:
                 return [("val", Const("dtype:" + v.dtype), st)]
             if attr == "shape":
                 return [("val", tuple(Sym(s_, "int") for s_ in v.shape), st)]
+            if attr == "size":
+                n = z3.IntVal(1)
+                for s_ in v.shape:
+                    n = n * s_
+                return [("val", Sym(z3.simplify(n), "int"), st)]
+            if attr == "ndim":
+                return [("val", Const(len(v.shape)), st)]
+            if attr == "itemsize" and v.dtype in DT:
+                return [("val", Const(v.itemsize()), st)]
             return [("val", BoundMethod(Builtin("arr." + attr), v), st)]
         if isinstance(v, Sym):
             if attr == "dtype":
@@ -1409,6 +1418,12 @@ class PyExec:
             rel = z3.Function("ISCLOSE", z3.RealSort(), z3.RealSort(), z3.BoolSort())
             st.pc.append(z3.Implies(x == y, rel(x, y)))
             return [("val", Sym(rel(x, y), "bool"), st)]
+        if name == "can_cast" and len(args) >= 2 and kwargs.get("casting") is None and len(args) == 2:
+            # decided by numpy itself on the two (concrete) dtypes
+            try:
+                return [("val", Const(bool(np.can_cast(np.dtype(self.dtype_name(args[0])), np.dtype(self.dtype_name(args[1]))))), st)]
+            except (TypeError, Unsupported):
+                raise Unsupported("np.can_cast on non-dtype arguments")
         if name == "Path":
             r = Opaque("Path")
             r.src = args[0] if args else None
